@@ -5,6 +5,7 @@ This module contains functions which are imported as methods in the `FST` class 
 
 from __future__ import annotations
 
+from ast import iter_child_nodes
 from typing import Any, Callable, Literal, Mapping, NamedTuple
 
 from . import fst
@@ -3907,6 +3908,10 @@ def _put_slice(
 
             with self._modifying(field):
                 handler(self, code, start, stop, field, one, options)
+
+            if self.a.__class__ in (Call, ClassDef, MatchClass):  # a sole argument / base / pattern shares the container parentheses so cached `pars()` of remaining elements depends on how many there are, and they may not have been offset (and so touched) by the put
+                for a in iter_child_nodes(self.a):
+                    a.f._touch()
 
             return self
 
